@@ -198,6 +198,20 @@ def checkDtree (kvs okv : List (String × String)) (rhs : String) : String := Id
     let mv := match VT.VTree.fromDtree m with | some t => showVT t | none => "none"
     if mv != vtS then return s!"FAIL MODEL derived vtree: model {mv} implementation {vtS}"
     if lookup okv "width" != some (toString m.cutwidth) then return "FAIL MODEL cutwidth"
+    -- the manager of the derived vtree (sparse labels when the CNF skips variable indices)
+    match VT.VTree.fromDtree m, lookup okv "mgr" with
+    | some t, some mg =>
+      match mg.splitOn ";" with
+      | [nvS, idxS] =>
+        let some nv := nvS.toNat? | return "FAIL PARSE mgr"
+        for v in t.leaves do
+          if v ≥ nv then return s!"FAIL SPEC variable {v} is a leaf of the derived vtree but the manager's num_vars() is {nv}"
+        let mm := VT.VTreeManager.new t
+        if nv != mm.numVars then return s!"FAIL MODEL num_vars of the derived vtree's manager: model {mm.numVars} implementation {nv}"
+        let want := ",".intercalate (t.leaves.map fun v => s!"{v}:{mm.getVarlabelIdx v}")
+        if idxS != want then return s!"FAIL MODEL var_index on the derived vtree: model {want} implementation {idxS}"
+      | _ => return "FAIL PARSE mgr"
+    | _, _ => pure ()
   return s!"ok nontrivial={if cs.length > 1 then 1 else 0}"
 
 /-! ### vtrees -/
